@@ -45,6 +45,7 @@ struct CbCtx {
 	const jwk_item_t *key = nullptr;
 	int alg = JWT_ALG_NONE; // kept as int: INVAL (15) is a legal enum value, nothing above it is used
 	int calls = 0;
+	bool passive = false; // this call: look, but leave the config as the library handed it over
 	bool capture = false;
 	std::string hdr_json, claims_json;
 	int hdr_rc = -1, claims_rc = -1;
